@@ -51,6 +51,7 @@ def build(g):
     lay = QGlobalAveragePooling2D(average_quantizer=QB) if c[0] == "Q" else L.GlobalAveragePooling2D()
   elif c in ("Add", "Subtract", "Multiply", "Maximum", "Average"):
     lay = getattr(L, c)()
+    lay._name = "lut"
     a = QActivation(QB)(i)
     if g.get("bc"):      # a broadcast operand (squeeze-and-excite style gate of shape 1x1xC), first or second
       b = QActivation("quantized_bits(6,1,1)")(L.Lambda(lambda t: t[:, :1, :1, :])(i))
@@ -59,6 +60,7 @@ def build(g):
     return tf.keras.Model(i, lay([a, b])), lay
   else:
     raise ValueError(c)
+  lay._name = "lut"          # every model names its layer under test alike: a count must not be remembered by name
   return tf.keras.Model(i, lay(i)), lay
 
 
